@@ -13,7 +13,15 @@ from exactly_lib.util.simple_textstruct.structure import LineElement
 class ExistingExecutableFileValidator(PathDdvValidatorBase):
     def _validate_path(self, path: DescribedPath) -> Optional[TextRenderer]:
         file_path = path.primitive
-        if not file_path.exists():
+        try:
+            exists = file_path.exists()
+        except OSError as ex:
+            # E.g. a file name that is too long
+            return path_err_msgs.line_header__primitive(
+                str(ex.strerror),
+                path.describer,
+            )
+        if not exists:
             return path_err_msgs.line_header__primitive(
                 'File does not exist',
                 path.describer,
